@@ -12,7 +12,7 @@ import (
 )
 
 func init() {
-	register("C10", "Decides the failure-atomicity and handle-discipline clauses for every injection point at once (rules are per site, hence for every k): (R10.1) handle typestate by path enumeration over the four protocol entry points and the handle constructors: on every CFG path, with the deferred closes applied at the return and closer summaries of driver.Close() resolved through the constructor, each opened handle that does not escape through a successful return is closed exactly once and is not used after a non-deferred close; (R10.2) every return of a function that hands a path upwards carries a nil result whenever its error may be non-nil; (R10.3) on the run path every fmt.Errorf that is given an error formats it with %w, and every error returned under `E != nil` for an I/O-class E (open, filter install, send, read) still carries E's origin; (R10.4) every goroutine started on the run path is joined by a Wait on every path to a return; (R10.5) the error of each SetPacketFilter call is tested and returned wrapped. Decided on the linux and darwin builds (Windows cannot be type-checked here; its raw-socket double close is out of reach). That deferred closes run when the process is killed, and goroutine termination (C08), are not decided here. (R10.6b) On a path where the capture read's error is not known nil, what ReadAndParse returns carries that error. Closing helpers are summarised (a module function that closes a parameter on every path, or every element of a slice parameter in a loop without early exit); a driver's Close closes a field only if the close sits on every path to every return. (R10.7) In every engine function that polls ReceiveProbe no return is reachable from the poll without a branch on its error.", runC10)
+	register("C10", "Decides the failure-atomicity and handle-discipline clauses for every injection point at once (rules are per site, hence for every k): (R10.1) handle typestate by path enumeration over the four protocol entry points and the handle constructors: on every CFG path, with the deferred closes applied at the return and closer summaries of driver.Close() resolved through the constructor, each opened handle that does not escape through a successful return is closed exactly once and is not used after a non-deferred close; (R10.2) every return of a function that hands a path upwards carries a nil result whenever its error may be non-nil; (R10.3) on the run path every fmt.Errorf that is given an error formats it with %w, and every error returned under `E != nil` for an I/O-class E (open, filter install, send, read) still carries E's origin; (R10.4) every goroutine started on the run path is joined by a Wait on every path to a return; (R10.5) the error of each SetPacketFilter call is tested and returned wrapped. Decided on the linux and darwin builds (Windows cannot be type-checked here; its raw-socket double close is out of reach). That deferred closes run when the process is killed, and goroutine termination (C08), are not decided here. (R10.6b) On a path where the capture read's error is not known nil, what ReadAndParse returns carries that error. Closing helpers are summarised (a module function that closes a parameter on every path, or every element of a slice parameter in a loop without early exit); a driver's Close closes a field only if the close sits on every path to every return. (R10.7) In every engine function that polls ReceiveProbe no return is reachable from the poll without a branch on its error. The read helper's premises are shared with C09 R09.1: a read that returned no error and a count not established to be positive ends the call with a fatal error, never with success or a retryable (skipped) condition.", runC10)
 	darwinRules["C10"] = runC10
 }
 
